@@ -169,6 +169,18 @@ func diffTx(got *txSnap, want *txInfo) []string {
 	return append(d, es...)
 }
 
+// one value-reading call of the session: ReadValue(e) or the value part of ExportTx (entries es)
+type sessOp struct {
+	isExp bool
+	e     entryInfo
+	es    []entryInfo
+	o     outcome
+	val   []byte
+	trunc bool
+	vals  [][]byte
+	viol  bool
+}
+
 type valRes struct {
 	e   entryInfo // the (vLen, vOff, hVal) the value was asked with
 	o   outcome
@@ -185,12 +197,7 @@ type jobResult struct {
 	readHdr  outcome
 	didHdr   bool
 	hdr      *store.TxHeader
-	vals     []valRes
-	didExp   bool
-	export   outcome
-	expTrunc bool
-	expVals  [][]byte
-	expEs    []entryInfo
+	sess     []sessOp // value reads made on the first opened store, in order (the value cache carries over)
 	findings []string
 	ops      int
 }
@@ -329,58 +336,64 @@ func (img *image) run(j *job) (*jobResult, error) {
 		}
 		// ---- ReadValue on every entry of what ReadTx returned
 		if o.ok() {
+			reps := 2 // every value is read twice: the second read may be answered by the value cache
+			if j.sequential() {
+				reps = 1
+			}
 			for i := range snap.entries {
-				e := snap.entries[i]
-				vr := valRes{e: e}
-				var ms0, ms1 runtime.MemStats
-				if j.sequential() {
-					runtime.ReadMemStats(&ms0)
-				}
-				vr.o = runOp(func() error {
-					if err := st.ReadTx(t.id, false, holder); err != nil {
+				for rep := 0; rep < reps; rep++ {
+					e := snap.entries[i]
+					vr := valRes{e: e}
+					var ms0, ms1 runtime.MemStats
+					if j.sequential() {
+						runtime.ReadMemStats(&ms0)
+					}
+					vr.o = runOp(func() error {
+						if err := st.ReadTx(t.id, false, holder); err != nil {
+							return err
+						}
+						v, err := st.ReadValue(holder.Entries()[i])
+						vr.val = append([]byte{}, v...)
 						return err
+					})
+					res.ops++
+					if j.sequential() {
+						runtime.ReadMemStats(&ms1)
+						d := ms1.TotalAlloc - ms0.TotalAlloc
+						if os.Getenv("C09_DEBUG") != "" {
+							fmt.Fprintf(os.Stderr, "probe %s entry %d vLen %d: %s err=%v alloc=%d MiB\n", j.kind, i, e.vLen, vr.o.class(), vr.o.err, d>>20)
+						}
+						if j.kind == "vlen-huge" && d >= hugeVLen/2 && e.vLen >= hugeVLen {
+							finding("ReadValue", "unbounded-allocation", "vLen", fmt.Sprintf("entry=%d vLen=%d allocated>=%dMiB although MaxValueLen=%d", i, e.vLen, d>>20, maxValueLen))
+						}
+						if j.kind == "vlen-longer-compressed" && d >= 1<<28 && i == 0 {
+							finding("ReadValue", "unbounded-allocation", "compressed-vlog-vLen-longer", fmt.Sprintf("entry=%d vLen=%d (committed %d) allocated>=%dMiB although MaxValueLen=%d", i, e.vLen, t.entries[i].vLen, d>>20, maxValueLen))
+						}
 					}
-					v, err := st.ReadValue(holder.Entries()[i])
-					vr.val = append([]byte{}, v...)
-					return err
-				})
-				res.ops++
-				if j.sequential() {
-					runtime.ReadMemStats(&ms1)
-					d := ms1.TotalAlloc - ms0.TotalAlloc
-					if os.Getenv("C09_DEBUG") != "" {
-						fmt.Fprintf(os.Stderr, "probe %s entry %d vLen %d: %s err=%v alloc=%d MiB\n", j.kind, i, e.vLen, vr.o.class(), vr.o.err, d>>20)
+					if first && !vr.o.hung {
+						res.sess = append(res.sess, sessOp{e: e, o: vr.o, val: vr.val, viol: img.valueViolation(t, i, &vr)})
 					}
-					if j.kind == "vlen-huge" && d >= hugeVLen/2 && e.vLen >= hugeVLen {
-						finding("ReadValue", "unbounded-allocation", "vLen", fmt.Sprintf("entry=%d vLen=%d allocated>=%dMiB although MaxValueLen=%d", i, e.vLen, d>>20, maxValueLen))
-					}
-					if j.kind == "vlen-longer-compressed" && d >= 1<<28 && i == 0 {
-						finding("ReadValue", "unbounded-allocation", "compressed-vlog-vLen-longer", fmt.Sprintf("entry=%d vLen=%d (committed %d) allocated>=%dMiB although MaxValueLen=%d", i, e.vLen, t.entries[i].vLen, d>>20, maxValueLen))
-					}
-				}
-				if first {
-					res.vals = append(res.vals, vr)
-				}
-				detail := fmt.Sprintf("entry=%d vLen=%d vLogID=%d", i, e.vLen, byte(e.vOff>>56))
-				diag := "other"
-				if vr.o.panicked && vlogMissing([]entryInfo{e}) && strings.Contains(vr.o.panicMsg, "nil pointer") {
-					diag = "vlog-id-not-in-map"
-				}
-				if bad("ReadValue", vr.o, diag) {
-					if vr.o.hung {
-						hungStore = true
-						return res, nil
-					}
-					continue
-				}
-				if vr.o.ok() && i < len(t.entries) && !bytes.Equal(vr.val, t.entries[i].value) {
+					detail := fmt.Sprintf("entry=%d read=%d vLen=%d vLogID=%d", i, rep+1, e.vLen, byte(e.vOff>>56))
 					diag := "other"
-					if family != "" {
-						diag = family
-					} else if e.vLen == 0 && len(vr.val) == 0 && e.hVal == t.entries[i].hVal {
-						diag = "vLen-0-empty-value"
+					if vr.o.panicked && vlogMissing([]entryInfo{e}) && strings.Contains(vr.o.panicMsg, "nil pointer") {
+						diag = "vlog-id-not-in-map"
 					}
-					finding("ReadValue", "altered-content", diag, detail+fmt.Sprintf(" got=%x want=%x", vr.val, t.entries[i].value))
+					if bad("ReadValue", vr.o, diag) {
+						if vr.o.hung {
+							hungStore = true
+							return res, nil
+						}
+						continue
+					}
+					if vr.o.ok() && i < len(t.entries) && !bytes.Equal(vr.val, t.entries[i].value) {
+						diag := "other"
+						if family != "" {
+							diag = family
+						} else if e.vLen == 0 && len(vr.val) == 0 && e.hVal == t.entries[i].hVal {
+							diag = "vLen-0-empty-value"
+						}
+						finding("ReadValue", "altered-content", diag, detail+fmt.Sprintf(" got=%x want=%x", vr.val, t.entries[i].value))
+					}
 				}
 			}
 		}
@@ -459,52 +472,59 @@ func (img *image) run(j *job) (*jobResult, error) {
 				}
 			}
 		}
-		// ---- ExportTx
-		var exp []byte
-		o = outcome{err: errSkipped}
-		if !noMoreExports {
-			o = runOp(func() error {
-				var e error
-				exp, e = st.ExportTx(t.id, false, false, holder)
-				exp = append([]byte{}, exp...)
-				return e
-			})
-			res.ops++
-		}
-		if first && !noMoreExports && snap != nil && !o.hung {
-			res.didExp, res.export, res.expEs = true, o, snap.entries
-			if o.ok() {
-				var perr error
-				res.expTrunc, res.expVals, perr = parseExport(exp, len(snap.entries))
-				if perr != nil {
-					finding("ExportTx", "malformed-export", "other", perr.Error())
-					res.didExp = false
+		// ---- ExportTx, twice (the second run may be answered by the value cache)
+		for rep := 0; rep < 2; rep++ {
+			var exp []byte
+			o = outcome{err: errSkipped}
+			if !noMoreExports {
+				o = runOp(func() error {
+					var e error
+					exp, e = st.ExportTx(t.id, false, false, holder)
+					exp = append([]byte{}, exp...)
+					return e
+				})
+				res.ops++
+			}
+			if first && !noMoreExports && snap != nil && !o.hung {
+				op := sessOp{isExp: true, es: snap.entries, o: o, viol: o.panicked}
+				okParse := true
+				if o.ok() {
+					var perr error
+					op.trunc, op.vals, perr = parseExport(exp, len(snap.entries))
+					if perr != nil {
+						finding("ExportTx", "malformed-export", "other", perr.Error())
+						okParse = false
+					}
+					op.viol = !bytes.Equal(exp, t.export)
+				}
+				if okParse {
+					res.sess = append(res.sess, op)
 				}
 			}
-		}
-		ediag := "other"
-		if o.panicked && snap != nil && vlogMissing(snap.entries) && strings.Contains(o.panicMsg, "nil pointer") {
-			ediag = "vlog-id-not-in-map"
-		}
-		if bad("ExportTx", o, ediag) {
-			hungStore = o.hung
-			return res, nil
-		}
-		if o.ok() && !bytes.Equal(exp, t.export) {
-			diag := "other"
-			if family != "" {
-				diag = family
-			} else if exportedAsTruncated(exp, t, snap) {
-				// the values are replaced by their committed digests and the export is flagged
-				// "values truncated": nothing false is exported, but the values are silently dropped
-				diag = "exported-as-truncated"
+			ediag := "other"
+			if o.panicked && snap != nil && vlogMissing(snap.entries) && strings.Contains(o.panicMsg, "nil pointer") {
+				ediag = "vlog-id-not-in-map"
 			}
-			finding("ExportTx", "altered-content", diag, fmt.Sprintf("got=%x", sha256.Sum256(exp)))
-		}
-		if o.err != nil && strings.Contains(o.err.Error(), "partially truncated") {
-			// ExportTx returns from this path with _valBsMux held (property C14): no further
-			// ExportTx on this store, it would block for that reason
-			noMoreExports = true
+			if bad("ExportTx", o, ediag) {
+				hungStore = o.hung
+				return res, nil
+			}
+			if o.ok() && !bytes.Equal(exp, t.export) {
+				diag := "other"
+				if family != "" {
+					diag = family
+				} else if exportedAsTruncated(exp, t, snap) {
+					// the values are replaced by their committed digests and the export is flagged
+					// "values truncated": nothing false is exported, but the values are silently dropped
+					diag = "exported-as-truncated"
+				}
+				finding("ExportTx", "altered-content", diag, fmt.Sprintf("run=%d got=%x", rep+1, sha256.Sum256(exp)))
+			}
+			if o.err != nil && strings.Contains(o.err.Error(), "partially truncated") {
+				// ExportTx returns from this path with _valBsMux held (property C14): no further
+				// ExportTx on this store, it would block for that reason
+				noMoreExports = true
+			}
 		}
 		// ---- TxReader: this transaction, then the next one (PrevAlh chain check)
 		var s1, s2 *txSnap
@@ -625,43 +645,176 @@ func (img *image) run(j *job) (*jobResult, error) {
 			return res, nil
 		}
 		last := img.txs[len(img.txs)-1].id
-		wctx, cancel := context.WithTimeout(ctx, 400*time.Millisecond)
-		st.WaitForIndexingUpto(wctx, last)
+		wctx, cancel := context.WithTimeout(ctx, 500*time.Millisecond)
+		st.WaitForIndexingUpto(wctx, last) // an indexer that stops at the altered transaction is fine
 		cancel()
+
+		type orig struct {
+			t *txInfo
+			e *entryInfo
+		}
+		originals := map[string]orig{}
 		for _, t := range img.txs {
 			for i := range t.entries {
-				w := &t.entries[i]
+				originals[string(t.entries[i].key)] = orig{t, &t.entries[i]}
+			}
+		}
+		// checkRef: whatever the index serves under key must be the committed entry of that key
+		// (transaction, value digest, key metadata) and must resolve, every time, to the committed
+		// value or to an error
+		checkRef := func(op string, key []byte, ref store.ValueRef) bool {
+			o, ok := originals[string(key)]
+			if !ok {
+				diag := "uncommitted-key-served"
+				if family != "" {
+					diag = family
+				}
+				finding(op, "altered-content", diag, fmt.Sprintf("key=%x tx=%d was never committed", key, ref.Tx()))
+				return true
+			}
+			var d []string
+			if ref.Tx() != o.t.id {
+				d = append(d, "tx")
+			}
+			if ref.HVal() != o.e.hVal {
+				d = append(d, "hVal")
+			}
+			if !bytes.Equal(mdBytes(ref.KVMetadata()), mdBytes(o.e.md)) {
+				d = append(d, "kvmd")
+			}
+			if len(d) > 0 {
+				diag := "other"
+				if family != "" {
+					diag = family
+				}
+				finding(op, "altered-content", diag, fmt.Sprintf("key=%x differs={%s}", key, strings.Join(d, ",")))
+			}
+			for rep := 0; rep < 2; rep++ {
 				var got []byte
-				var gtx uint64
-				var ghv [sha256.Size]byte
-				o := runOp(func() error {
-					ref, err := st.Get(ctx, w.key)
-					if err != nil {
-						return err
-					}
-					gtx, ghv = ref.Tx(), ref.HVal()
+				ro := runOp(func() error {
 					v, err := ref.Resolve()
 					got = append([]byte{}, v...)
 					return err
 				})
 				res.ops++
-				if bad("Get+Resolve(index rebuild)", o, "other") {
-					if o.hung {
-						hungStore = true
-						return res, nil
-					}
-					continue
+				if bad(op+"+Resolve", ro, "other") {
+					return !ro.hung
 				}
-				if o.ok() && (gtx != t.id || ghv != w.hVal || !bytes.Equal(got, w.value)) {
-					detail := fmt.Sprintf("key=%x tx=%d got=%x want=%x", w.key, gtx, got, w.value)
+				if ro.ok() && !bytes.Equal(got, o.e.value) {
 					diag := "other"
 					if family != "" {
 						diag = family
-					} else if len(got) == 0 && len(w.value) > 0 && gtx == t.id && ghv == w.hVal {
+					} else if len(got) == 0 && len(o.e.value) > 0 && ref.Tx() == o.t.id && ref.HVal() == o.e.hVal && ref.Len() == 0 {
 						diag = "vLen-0-empty-value"
 					}
-					finding("Get+Resolve(index rebuild)", "altered-content", diag, detail)
+					finding(op+"+Resolve", "altered-content", diag, fmt.Sprintf("key=%x resolve=%d got=%x want=%x", key, rep+1, got, o.e.value))
 				}
+			}
+			return true
+		}
+
+		// (1) scan of the whole rebuilt index, no filters (deleted entries are listed too)
+		o = runOp(func() error {
+			snap, err := st.SnapshotMustIncludeTxID(ctx, nil, 0)
+			if err != nil {
+				return err
+			}
+			defer snap.Close()
+			rd, err := snap.NewKeyReader(store.KeyReaderSpec{})
+			if err != nil {
+				return err
+			}
+			defer rd.Close()
+			for n := 0; n < 1000; n++ {
+				key, ref, err := rd.Read(ctx)
+				if err != nil {
+					return nil // ErrNoMoreEntries or a read error: both fine
+				}
+				checkRef("Scan(index rebuild)", append([]byte{}, key...), ref)
+			}
+			return nil
+		})
+		res.ops++
+		if bad("Scan(index rebuild)", o, "other") && o.hung {
+			hungStore = true
+			return res, nil
+		}
+		// (2) point lookups of every committed key, (3) of the key bytes as altered, (4) by prefix
+		keys := [][]byte{}
+		for _, t := range img.txs {
+			for i := range t.entries {
+				keys = append(keys, t.entries[i].key)
+			}
+		}
+		nOrig := len(keys)
+		if j.target >= 0 {
+			t := img.txs[j.target]
+			rec := clone(t.rec)
+			for _, p := range j.patches {
+				if p.vlog >= 0 {
+					continue
+				}
+				for k, b := range p.data {
+					if x := p.off + int64(k) - t.off; x >= 0 && x < int64(len(rec)) {
+						rec[x] = b
+					}
+				}
+			}
+			for _, f := range t.fields {
+				if f.class == "entry.key" && !bytes.Equal(rec[f.lo:f.hi], t.rec[f.lo:f.hi]) {
+					keys = append(keys, clone(rec[f.lo:f.hi]))
+				}
+			}
+			if nfs, err := parseFields(rec); err == nil { // the layout as the altered lengths define it
+				for _, f := range nfs {
+					if f.class == "entry.key" {
+						if _, ok := originals[string(rec[f.lo:f.hi])]; !ok {
+							keys = append(keys, clone(rec[f.lo:f.hi]))
+						}
+					}
+				}
+			}
+		}
+		for ki, key := range keys {
+			var ref store.ValueRef
+			o := runOp(func() error {
+				var err error
+				ref, err = st.Get(ctx, key)
+				return err
+			})
+			res.ops++
+			if bad("Get(index rebuild)", o, "other") {
+				if o.hung {
+					hungStore = true
+					return res, nil
+				}
+				continue
+			}
+			if o.ok() && !checkRef("Get(index rebuild)", key, ref) {
+				hungStore = true
+				return res, nil
+			}
+			if ki >= nOrig {
+				continue
+			}
+			var pk []byte
+			o = runOp(func() error {
+				var err error
+				pk, ref, err = st.GetWithPrefix(ctx, key, nil)
+				pk = append([]byte{}, pk...)
+				return err
+			})
+			res.ops++
+			if bad("GetWithPrefix(index rebuild)", o, "other") {
+				if o.hung {
+					hungStore = true
+					return res, nil
+				}
+				continue
+			}
+			if o.ok() && !checkRef("GetWithPrefix(index rebuild)", pk, ref) {
+				hungStore = true
+				return res, nil
 			}
 		}
 	}
